@@ -205,8 +205,11 @@ def supported(s: Shape) -> Optional[str]:
     if s.extra.get("type_tag") and s.asyncness != "sync":
         return "type tags only generated for sync methods"
     if s.extra.get("trait_lt") and (s.asyncness != "sync" or "ref_str" not in s.params
-                                    or any(k.generic == "trait" for k in kinds)):
-        return "trait-level lifetimes only generated for sync methods with a &str parameter and no trait type generic"
+                                    or any(k.generic for k in kinds)):
+        # calibration: a lifetime parameter on the trait together with a type-generic method (`fn m<T>` / `impl Trait`
+        # argument) does not expand with the pinned macro ("expected one of `#`, `>`, `const`, identifier, or
+        # lifetime, found `,`"): such traits are not accepted by the attribute, so they are outside the property
+        return "trait-level lifetimes only generated for sync, non-generic methods with a &str parameter"
     if s.named_self_lifetime and s.receiver == "mut" and s.asyncness == "sync" and s.ret in ("self_mut", "u32", "unit"):
         pass  # `fn m<'s>(&'s mut self, ..) -> &'s mut u32`
     elif s.named_self_lifetime and (s.receiver != "ref" or s.asyncness != "sync"):
